@@ -66,9 +66,16 @@ func runWorker(prop Property, tier string, base uint64, from, to int, only map[i
 	ws := &workerSummary{From: from, To: to, Counters: map[string]int{}, Det: map[string]string{}, Known: map[string]int{}}
 	findings := loadFindings(verifRoot())
 	keys, inters, states := map[string]bool{}, map[string]bool{}, map[string]bool{}
+	var progress *os.File
+	if p := os.Getenv("VERIF_PROGRESS"); p != "" {
+		progress, _ = os.OpenFile(p, os.O_CREATE|os.O_WRONLY, 0644)
+	}
 	for i := from; i < to; i++ {
 		if only != nil && !only[i] {
 			continue
+		}
+		if progress != nil {
+			progress.WriteAt([]byte(fmt.Sprintf("%-20d", i)), 0) // which run is executing, should the process die
 		}
 		seed := RunSeed(base, prop.ID(), i)
 		var c *Case
@@ -261,11 +268,25 @@ func spawnWorker(prop, tier string, base uint64, from, to int, only string, goma
 	ctx, cancel := context.WithTimeout(context.Background(), limit)
 	defer cancel()
 	cmd := exec.CommandContext(ctx, exe, args...)
-	cmd.Env = append(os.Environ(), "GOMAXPROCS="+strconv.Itoa(gomaxprocs))
+	pf, _ := os.CreateTemp(os.Getenv("VERIF_SCRATCH_DIR"), "progress-*")
+	pfName := ""
+	if pf != nil {
+		pfName = pf.Name()
+		pf.Close()
+		defer os.Remove(pfName)
+	}
+	cmd.Env = append(os.Environ(), "GOMAXPROCS="+strconv.Itoa(gomaxprocs), "VERIF_PROGRESS="+pfName)
 	var out, errb bytes.Buffer
 	cmd.Stdout = &out
 	cmd.Stderr = &errb
 	if err := cmd.Run(); err != nil {
+		if isDeadlock(errb.String()) {
+			b, _ := os.ReadFile(pfName)
+			idx, perr := strconv.Atoi(strings.TrimSpace(string(b)))
+			if perr == nil {
+				return nil, &deadlockError{index: idx, trace: trunc(errb.String(), 3000)}
+			}
+		}
 		return nil, fmt.Errorf("worker %d-%d: %v\n%s", from, to, err, trunc(errb.String(), 4000))
 	}
 	var ws workerSummary
@@ -273,6 +294,32 @@ func spawnWorker(prop, tier string, base uint64, from, to int, only string, goma
 		return nil, fmt.Errorf("worker %d-%d: bad summary: %v\n%s", from, to, err, trunc(out.String(), 2000))
 	}
 	return &ws, nil
+}
+
+// deadlockError: the Go runtime found every goroutine of a worker asleep while it was
+// executing run `index`. In the simulation only package jen can cause that (a send or
+// receive on a channel nobody will ever serve, a lock never released).
+type deadlockError struct {
+	index int
+	trace string
+}
+
+func (d *deadlockError) Error() string { return fmt.Sprintf("deadlock while executing run %d", d.index) }
+
+func isDeadlock(stderr string) bool {
+	return strings.Contains(stderr, "all goroutines are asleep - deadlock")
+}
+
+// probeDeadlock re-executes one run index in a child process and reports whether it deadlocks again.
+func probeDeadlock(propID, tier string, base uint64, index int) bool {
+	exe, _ := os.Executable()
+	ctx, cancel := context.WithTimeout(context.Background(), 2*time.Minute)
+	defer cancel()
+	cmd := exec.CommandContext(ctx, exe, "worker", propID, tier, strconv.FormatUint(base, 10), strconv.Itoa(index), strconv.Itoa(index+1))
+	var errb bytes.Buffer
+	cmd.Stderr = &errb
+	err := cmd.Run()
+	return err != nil && isDeadlock(errb.String())
 }
 
 func driver(propID, tier string) int {
@@ -315,11 +362,31 @@ func driver(propID, tier string) int {
 		}(w, from, to)
 	}
 	wg.Wait()
+	var deadlocks []workerViolation
 	for _, e := range errs {
-		if e != nil {
-			fmt.Fprintf(os.Stderr, "simcheck: %v\n", e)
-			return 2
+		if e == nil {
+			continue
 		}
+		if de, ok := e.(*deadlockError); ok {
+			seed := RunSeed(base, propID, de.index)
+			var c *Case
+			if ix, ok := prop.(Indexed); ok {
+				c = ix.GenAt(de.index, seed, tier)
+			} else {
+				c = prop.Gen(seed, tier)
+			}
+			v := &Violation{Rule: propID + "-deadlock", Observed: de.trace,
+				Detail: fmt.Sprintf("run %d never finishes: every goroutine is blocked inside the library (Go runtime: all goroutines are asleep). The simulation runs one task at a time and owns every lock, so only a channel operation or lock inside package jen that nothing will ever release can cause this", de.index)}
+			if probeDeadlock(propID, tier, base, de.index) {
+				v.Detail += "; reproduced in a fresh process running this run alone"
+			} else {
+				v.Detail += "; NOT reproduced by this run alone in a fresh process: it depends on what the worker executed before (state that survives in the process)"
+			}
+			deadlocks = append(deadlocks, workerViolation{Index: de.index, Seed: seed, V: v, Case: c})
+			continue
+		}
+		fmt.Fprintf(os.Stderr, "simcheck: %v\n", e)
+		return 2
 	}
 
 	// aggregate
@@ -398,6 +465,8 @@ func driver(propID, tier string) int {
 		return 2
 	}
 
+	agg.Violations = append(agg.Violations, deadlocks...)
+	agg.NViol += len(deadlocks)
 	// auxiliary legs a property runs after the sweep (C09: real goroutines under the race detector)
 	if pc, ok := prop.(PostChecker); ok {
 		pv, pcnt := pc.Post(tier, base)
@@ -415,11 +484,13 @@ func driver(propID, tier string) int {
 	reported := 0
 	os.MkdirAll(filepath.Join(root, "replays"), 0755)
 	for _, wv := range agg.Violations {
-		if kfs := classify(prop, wv.Case, findings); kfs != nil {
-			for _, kf := range kfs {
-				knownSeen[kf.ID]++
+		if !strings.HasSuffix(wv.V.Rule, "-deadlock") {
+			if kfs := classify(prop, wv.Case, findings); kfs != nil {
+				for _, kf := range kfs {
+					knownSeen[kf.ID]++
+				}
+				continue
 			}
-			continue
 		}
 		if reported >= 3 {
 			reported++
@@ -427,10 +498,17 @@ func driver(propID, tier string) int {
 		}
 		reported++
 		exit = 1
-		mc, mv, steps := minimise(prop, wv.Case, wv.V, 400)
+		var mc *Case
+		var mv *Violation
+		steps := 0
+		if strings.HasSuffix(wv.V.Rule, "-deadlock") {
+			mc, mv = wv.Case, wv.V
+		} else {
+			mc, mv, steps = minimise(prop, wv.Case, wv.V, 400)
+		}
 		rf := &replayFile{Property: propID, Rule: mv.Rule, BaseSeed: base, Index: wv.Index, Seed: wv.Seed, Violation: mv, Case: mc, Minimised: steps > 0, MinimiseSteps: steps}
 		// a minimised case may have turned into a known finding's shape; if so report the unminimised one
-		if kfs := classify(prop, mc, findings); kfs != nil {
+		if kfs := classify(prop, mc, findings); kfs != nil && steps > 0 {
 			rf.Case, rf.Violation, rf.Minimised = wv.Case, wv.V, false
 			rf.Note = "minimisation drifted into known finding " + kfs[0].ID + "; unminimised case reported"
 		}
@@ -498,7 +576,33 @@ func verifyReplay(path string) bool {
 	return cmd.ProcessState != nil && cmd.ProcessState.ExitCode() == 1 && bytes.Contains(out, []byte("VIOLATION property="))
 }
 
+// replayCmd replays a file. The check itself runs in a child process, so that a
+// deadlocking case is reported instead of taking the replayer down.
 func replayCmd(path string) int {
+	if os.Getenv("VERIF_REPLAY_INNER") == "" {
+		exe, _ := os.Executable()
+		ctx, cancel := context.WithTimeout(context.Background(), 10*time.Minute)
+		defer cancel()
+		cmd := exec.CommandContext(ctx, exe, "replay", path)
+		cmd.Env = append(os.Environ(), "VERIF_REPLAY_INNER=1")
+		var errb bytes.Buffer
+		cmd.Stdout = os.Stdout
+		cmd.Stderr = &errb
+		err := cmd.Run()
+		if err != nil && isDeadlock(errb.String()) {
+			var rf replayFile
+			if b, e := os.ReadFile(path); e == nil {
+				json.Unmarshal(b, &rf)
+			}
+			fmt.Printf("VIOLATION property=%s replay=%s\n  rule=%s-deadlock: every goroutine is blocked inside the library\n", rf.Property, path, rf.Property)
+			return 1
+		}
+		os.Stderr.Write(errb.Bytes())
+		if cmd.ProcessState != nil {
+			return cmd.ProcessState.ExitCode()
+		}
+		return 2
+	}
 	b, err := os.ReadFile(path)
 	if err != nil {
 		fatal2("%v", err)
